@@ -19,7 +19,7 @@ from ..rng import digest
 from .c07 import corrupt
 
 PROP = "C04"
-RUNS = {"quick": 30000, "thorough": 3000000}
+RUNS = {"quick": 30000, "thorough": 500000}
 WALL = {"quick": 280, "thorough": 3500}
 RULE = ("one run = a generated valid document; each record checked valid, then 1-6 single-point "
         "mutations judged by the independent recogniser at vlevel 1-3; then one document-level fault; "
